@@ -512,7 +512,12 @@ def one_crash(rep, drv, contents, ti, seed, case_dir, flags, cfg, env, call, k, 
         if n["k"] == "f" and n["size"] >= thr and tasks.get(rel) == "u" and c is not None and c["k"] == "f":
             s = pre_src.get(rel)
             if s and c["cid"] not in (n["cid"], s["cid"]) and not cfg.get("cmp") == "x":
-                rep.oracle_fail("C09/large-update-not-atomic", f"{rel} (>= threshold, block-delta update) holds neither its old nor its new content after the kill", desc)
+                if "openTrunc" in per_owner.get(rel, []):
+                    # the route of the recorded finding (witness Props/C09.crash_large_update_atomic_counterexample_inplace): the sampled change
+                    # ratio exceeded 75 % (or sparse source / followed link) and the destination was opened with O_TRUNC and rewritten in place
+                    rep.oracle_fail("C09/large-update-rewritten-in-place", f"{rel} (>= threshold) was rewritten in place (open O_TRUNC observed) and holds neither its old nor its new content after the kill", desc)
+                else:
+                    rep.oracle_fail("C09/large-update-not-atomic", f"{rel} (>= threshold, block-delta update) holds neither its old nor its new content after the kill", desc)
     # ---- O: an uninterrupted re-run converges, leaves no working file, accepts no torn file
     rc2, out2, err2 = run_sy([src_root, dst_root, "--json"] + flags, case_dir, env_extra=env)
     final = snapshot(dst_root, contents)
